@@ -644,7 +644,11 @@ def check_docs(ck, cases, variant_repaired=True, search=True):
         ref = members[0]
         for m in members[1:]:
             ck.count('factored-vs-plain compared')
-            if m[3] != ref[3] or (m[3] == 'ok' and m[4] != ref[4]):
+            # with --setup-only ReBench keeps, for every distinct build, ONE of the runs that need it; which one is
+            # not specified (it follows the iteration order of a set), so only their number is compared there
+            setup_only = '--setup-only' in (m[2] or [])
+            same_runs = (len(m[4]) == len(ref[4])) if setup_only else (m[4] == ref[4])
+            if m[3] != ref[3] or (m[3] == 'ok' and not same_runs):
                 ck.oracle_fail('anchors_equivalent', {'mutation': m[0], 'yaml': m[1], 'cli': m[2], 'plain_yaml': ref[1]},
                                {'plain': {'status': ref[3], 'runs': ref[4]}, 'factored': {'status': m[3], 'runs': m[4]}},
                                signature={'clause': 'anchors_equivalent', 'plain': ref[3], 'factored': m[3]})
